@@ -316,6 +316,7 @@ func badTexts(t *rapid.T, set *ymodel.Set) []ymodel.Source {
 func gen(t *rapid.T) Case {
 	o := ymodel.DefaultOpts()
 	o.Budget = 14
+	o.Posix = true // posix-pattern statements of openconfig-extensions in string types
 	o.Extras = true // must, when, status, reference, presence and extension statements on nodes, uses and augments
 	schema.AugmentExtras = true
 	set, _ := schema.Generate(t, o)
